@@ -15,6 +15,9 @@ Lam(e) == SzExpr(e, "lambda")
 \* 46 '.', 42 '*', 91 '[', 92 '\', 36 '$', 124 '|', 40 '(', 10 newline, 94 '^'
 U_C18 == {
     RDecl(<<U1("a"), IntF("b", 2, FALSE, "little")>>, {46, 42, 10}, 3),
+    \* signed integers fixed to negative values (bytes >= 128), either byte order
+    RDecl(<<IntF("a", 1, TRUE, "default"), IntF("b", 2, TRUE, "little"), U1("z")>>, {0, 128, 255, 46}, 4),
+    RDecl(<<IntF("a", 2, TRUE, "big"), IntF("b", 3, TRUE, "default")>>, {1, 128, 255}, 5),
     RDecl(<<U1("a"), DataF("d", SzConst(2)), U1("z")>>, {91, 92, 1}, 4),
     RDecl(<<U1("a"), DataF("d", SzField("a")), U1("z")>>, {0, 1, 2, 36}, 4),
     RDecl(<<U1("a"), DataF("d", Defer(EBin("mul", EF("a"), EC(2)))), U1("z")>>, {0, 1, 124}, 4),
